@@ -187,8 +187,14 @@ func run(id, tier string) int {
 	wg.Wait()
 
 	total := core.NewCtx(id, tier, seed(), 0, 1).Result()
+	shardOf := map[string]int{} // finding|case -> worker that reported it
 	for i, o := range outs {
 		if o.res != nil {
+			for _, v := range o.res.Violations {
+				if _, ok := shardOf[v.Finding+"|"+v.Case]; !ok {
+					shardOf[v.Finding+"|"+v.Case] = i
+				}
+			}
 			core.Merge(total, o.res)
 			continue
 		}
@@ -214,6 +220,8 @@ func run(id, tier string) int {
 	exit := 0
 	seenKnown := map[string]bool{}
 	reported := map[string]bool{}
+	historyDependent := map[string]int{}
+	unconfirmed := 0
 	nviol := 0
 	os.MkdirAll(replayDir(), 0o755)
 	var knownSeen []string
@@ -252,13 +260,39 @@ func run(id, tier string) int {
 				}
 			}
 			if ok != 2 {
-				fmt.Fprintf(os.Stderr, "HARNESS-ERROR: case %q finding %q did not reproduce deterministically (%d/2)\n", v.Case, v.Finding, ok)
-				return 2
+				// not reproducible in a fresh process on its own: does it reproduce when the worker's whole share of the enumeration is
+				// re-run (the library carrying state from earlier calls)? Twice, in fresh processes.
+				sh, known := shardOf[v.Finding+"|"+v.Case]
+				hist := 0
+				if known {
+					for r := 0; r < 2; r++ {
+						o := spawn(id, tier, sh, n, dir, "")
+						if o.res != nil {
+							for _, vv := range o.res.Violations {
+								if vv.Finding == v.Finding {
+									hist++
+									break
+								}
+							}
+						}
+					}
+				}
+				if hist != 2 {
+					// not believed and not reported as a violation; the run ends with exit 2 unless a confirmed violation is found as well
+					fmt.Fprintf(os.Stderr, "HARNESS-ERROR: case %q finding %q did not reproduce deterministically (alone %d/2, with its worker's history %d/2)\n", v.Case, v.Finding, ok, hist)
+					unconfirmed++
+					continue
+				}
+				historyDependent[v.Finding] = sh
 			}
 		}
 		nviol++
 		rf := core.ReplayFile{Property: id, Tier: tier, Seed: seed(), Finding: v.Finding, Case: v.Case, Detail: v.Detail, Inputs: v.Inputs,
 			How: "cd /verif && ./run.sh replay <this file>"}
+		if sh, ok := historyDependent[v.Finding]; ok {
+			rf.HistoryDependent, rf.Shard, rf.NShards = true, sh, n
+			rf.Detail = "[shows only after the cases that ran before it in the same process: the library carries state between calls; replay re-runs worker " + fmt.Sprint(sh) + " of " + fmt.Sprint(n) + "]\n" + rf.Detail
+		}
 		p := filepath.Join(replayDir(), fmt.Sprintf("%s-%s.json", id, core.Hash12(v.Finding+"|"+v.Case)))
 		b, _ := json.MarshalIndent(rf, "", " ")
 		os.WriteFile(p, b, 0o644)
@@ -315,6 +349,9 @@ func run(id, tier string) int {
 	fmt.Printf("%s %s: cases=%d nontrivial=%d impl_calls=%d validated=%d outcomes=%d verdicts=%v exhaustive=%v wall=%.1fs violations=%d\n",
 		id, tier, total.Evaluations, total.NonTrivial, total.Transitions, total.Validated, len(total.Outcomes), total.Verdicts,
 		!total.Capped && total.Skipped == 0, time.Since(start).Seconds(), nviol)
+	if exit == 0 && unconfirmed > 0 {
+		return 2 // something failed once and could not be reproduced: neither a pass nor a violation
+	}
 	return exit
 }
 
@@ -333,6 +370,18 @@ func replay(path string) int {
 	dir, _ := os.MkdirTemp("", "vreplay-")
 	defer os.RemoveAll(dir)
 	o := spawn(rf.Property, rf.Tier, 0, 1, dir, rf.Case)
+	if rf.HistoryDependent && rf.NShards > 0 {
+		o = spawn(rf.Property, rf.Tier, rf.Shard, rf.NShards, dir, "")
+		if o.res != nil {
+			var keep []core.Violation
+			for _, v := range o.res.Violations {
+				if v.Finding == rf.Finding {
+					keep = append(keep, v)
+				}
+			}
+			o.res.Violations = keep
+		}
+	}
 	if o.res == nil {
 		fmt.Printf("replay: worker crashed: %v\n%s\n", o.err, tail(o.stderr, 3000))
 		fmt.Printf("VIOLATION property=%s replay=%s\n", rf.Property, path)
